@@ -1,6 +1,7 @@
 import BfeVerif.Common.Proto
 import BfeVerif.C41.Model
 import BfeVerif.C41.Select
+import BfeVerif.C41.Serve
 /-!
   C41 driver.  One op = one (Config, Rule, ClientHello, session lookups) case, 23 space separated fields:
 
@@ -394,9 +395,129 @@ def runCa (f : List String) (impl : String) : Ans :=
     | none => { model := "bad-op", verdict := "skip" }
   | _ => { model := "bad-op", verdict := "skip" }
 
+/-! ### end-to-end streams `ee` / `eh`: Config.ServerRule is the production TLSServerRuleMap; readClientHello finds the
+    rule itself.  The model is `serve` (rule lookup with the name the Conn holds at that moment, then readClientHello);
+    the oracle computes the governing product from (VIP, SNI) by the specification and demands that what was
+    negotiated is what THAT product's rule allows. -/
+
+structure ProdRule where
+  name : String
+  rule : Rule
+
+def defaultProdRule : ProdRule :=
+  { name := "default", rule := { grade := gradeC, clientAuth := false, chacha20 := false, nextProtos := ["http/1.1"] } }
+
+def parseProdRules (s : String) : Option (List ProdRule) :=
+  (s.splitOn ";").mapM fun e =>
+    match e.splitOn ":" with
+    | [n, g, a, c, ps] => some { name := n, rule := { grade := g, clientAuth := a == "1", chacha20 := c == "1", nextProtos := ps.splitOn "+" } }
+    | _ => none
+
+structure E2E where
+  table : RuleTable Rule
+  want : ProdRule                -- the product the specification makes govern (VIP, SNI)
+  vip : Option String
+  sni : String
+
+def parseE2E (prods vm sm vip sni : String) : Option E2E :=
+  match parseProdRules prods, parseKV vm, parseKV sm with
+  | some ps, some vm, some sm =>
+    let find (n : String) : ProdRule := (ps.find? (·.name == n)).getD defaultProdRule
+    let vipO := if vip == "-" then none else some vip
+    let vt := vm.map fun p => (p.1, find p.2)
+    let st := sm.map fun p => (p.1, find p.2)
+    let want : ProdRule :=
+      match vipO.bind (lookup vt) with
+      | some r => r
+      | none =>
+        match st.find? fun p => normName p.1 == normName (undash sni) with
+        | some p => p.2
+        | none => defaultProdRule
+    some { table := { vip := vt.map fun p => (p.1, p.2.rule), sni := st.map fun p => (p.1, p.2.rule), dflt := defaultProdRule.rule },
+           want := want, vip := vipO, sni := undash sni }
+  | _, _, _ => none
+
+def e2eCfg (cert : String) : Config :=
+  { minVersionRaw := 0, maxVersionRaw := 0, cipherSuitesRaw := none, priority := [], preferServer := false,
+    ssl3PoodleProofed := false, ticketsDisabled := false, cacheEnabled := false, nextProtos := [], clientAuth := 0,
+    curvePrefsRaw := [], hasCert := true, certEcdsa := cert == "e" }
+
+/-- does an accepted (version, suite, ALPN, client-auth policy) respect the rule `r`?  (`ca = none`: not observed) -/
+def ruleRespected (cfg : Config) (r : Rule) (v s : Nat) (al : String) (ca : Option Nat) : Bool :=
+  let rc4 := checkCipherGrade cfg r.grade v
+  !((r.grade == gradeA && v < versionTLS10) || (r.grade == gradeAPlus && v < versionTLS12)) &&
+  (match lookupSuite s with
+   | some su => !(su.has suiteChacha20 && !r.chacha20) && !(su.has suiteRC4 && rc4 == .disable) && !(!su.has suiteRC4 && rc4 == .only)
+   | none => false) &&
+  (al == "-" || r.nextProtos.contains al || (al == "http/1.1" && r.nextProtos.contains "h2")) &&
+  (match ca with
+   | some n => n == (if r.clientAuth then requireAndVerifyClientCert else cfg.clientAuth)
+   | none => true)
+
+def runEe (f : List String) (impl : String) : Ans :=
+  if f.length != 13 then { model := "bad-op", verdict := "skip" } else
+  match parseE2E (f.getD 0 "") (f.getD 1 "") (f.getD 2 "") (f.getD 3 "") (f.getD 4 ""),
+        parseCase (" ".intercalate (["rch", "0000", "0000", "n", "-", "00000", "-", "0", "-", f.getD 5 "r", "0", "C", "00", "-"] ++ f.drop 6 ++ ["-", "-"])) with
+  | some e, some c =>
+    let cfg := e2eCfg (f.getD 5 "r")
+    let m := serve e.table cfg e.vip e.sni c.hello c.lk
+    let verdict :=
+      if impl.startsWith "ok " then
+        match (field impl "v").bind parseHex, (field impl "s").bind parseHex, field impl "al", (field impl "ca").bind String.toNat? with
+        | some v, some s, some al, some ca =>
+          if ruleRespected cfg e.want.rule v s al (some ca) then "ok" else "FAIL:rule-not-applied"
+        | _, _, _, _ => "FAIL:unparsable-result"
+      else "ok"
+    { model := render m, verdict := verdict,
+      tags := ["ee", "ee-" ++ (if e.want.name == "default" then "default" else if (e.vip.bind (lookup e.table.vip)).isSome then "vip" else "sni")] ++
+              (match m with | .ok _ => ["nt"] | .error _ => []) }
+  | _, _ => { model := "bad-op", verdict := "skip" }
+
+def runEh (f : List String) (impl : String) : Ans :=
+  if f.length != 11 then { model := "bad-op", verdict := "skip" } else
+  match impl.splitOn " | " with
+  | [helloStr, outcome] =>
+    match parseE2E (f.getD 0 "") (f.getD 1 "") (f.getD 2 "") (f.getD 3 "") (f.getD 4 ""),
+          parseCase (" ".intercalate (["rch", "0000", "0000", "n", "-", "00000", "-", "0", "-", f.getD 5 "r", "0", "C", "00", "-", helloStr])),
+          parseHex (f.getD 6 "") with
+    | some e, some c, some cmin =>
+      let cfg := e2eCfg (f.getD 5 "r")
+      let m := serve e.table cfg e.vip e.sni c.hello c.lk
+      let client := f.getD 10 "none"
+      let expected :=
+        match m with
+        | .error _ => "srv=err cli=err echo=-"
+        | .ok p =>
+          let kxCurves := if p.ecdheNoExt then c.hello.curves ++ [curveP256] else c.hello.curves
+          let kxBad := p.suite.has suiteECDHE && !implementedCurves.contains (keyExchangeCurve cfg.curvePreferences kxCurves)
+          -- the client-certificate step under the policy readClientHello installed (products with clientAuth trust CA A)
+          let cc : Option ClientCert :=
+            if client == "none" then none
+            else some { parses := true, revoked := false, chainOk := client == "A", ekuListed := true, keyOk := true, sigOk := true }
+          let caBad := match clientAuthStep p.clientAuth cc with | .ok _ => false | .error _ => true
+          if kxBad || caBad || p.vers < cmin || (p.alpn != "" && !c.hello.alpn.contains p.alpn) then "srv=err cli=err echo=-"
+          else "srv=" ++ sideStr p p.clientProto ++ " cli=" ++ sideStr p p.alpn ++ " echo=ok"
+      let srvOk := (outcome.splitOn " cli=").getD 0 ""
+      let verdict :=
+        if srvOk.startsWith "srv=ok" then
+          match (field srvOk "v").bind parseHex, (field srvOk "s").bind parseHex, field srvOk "al" with
+          | some v, some s, some al =>
+            if !ruleRespected cfg e.want.rule v s al none then "FAIL:rule-not-applied"
+            else if e.want.rule.clientAuth && client != "A" then "FAIL:rule-not-applied"   -- completed without the product's client certificate
+            else "ok"
+          | _, _, _ => "FAIL:unparsable-result"
+        else "ok"
+      { model := helloStr ++ " | " ++ expected, verdict := verdict,
+        tags := ["eh", "eh-" ++ (if e.want.name == "default" then "default" else if (e.vip.bind (lookup e.table.vip)).isSome then "vip" else "sni")] ++
+                (if e.want.rule.clientAuth then ["eh-clientauth"] else []) ++ (if expected.startsWith "srv=ok" then ["nt"] else []) }
+    | _, _, _ => { model := "bad-hello", verdict := "FAIL:hs-hello-not-captured" }
+  | _ => { model := "bad-result", verdict := "FAIL:unparsable-result" }
+
 def run (op impl : String) : Ans :=
   match op.splitOn " " with
   | "hs" :: f => runHs f impl
+  | "ee" :: f => runEe f impl
+  | "eh" :: f => runEh f impl
   | "rl" :: f => runRl f impl
   | "cl" :: f => runCl f impl
   | "cn" :: f => runCn f impl
